@@ -7,6 +7,7 @@ Random conjunctive rules over raw tables a, b, c (so that FROM items are plain t
        returns (this validates `CQ.evalSelect`, the model's semantics of that SQL shape, against the engine).
 The theorem `compile_correct_partial` closes the triangle for every rule and every database.
 """
+import json
 import re
 import sqlite3
 
@@ -221,3 +222,177 @@ def run_agg(ck, n):
       ck.disagreement('cq-model-internal', rep, model['group_sql'], model['group_denote'])
     if got != exp:
       ck.violation('c02:cq:rows:%s' % op, 'aggregating rule (%s): SQLite returns %s, the rule denotes %s' % (op, got[:4], exp[:4]), rep)
+
+
+# ---- arithmetic in heads, comparisons in bodies (CQ.xcompile) ----
+
+def gen_expr(rng, bound, depth=2):
+  if depth == 0 or rng.random() < 0.4:
+    return {'var': rng.choice(bound)} if bound and rng.random() < 0.75 else {'const': rng.randint(0, 4)}
+  return {'bin': [rng.choice(['+', '-', '*']), gen_expr(rng, bound, depth - 1), gen_expr(rng, bound, depth - 1)]}
+
+
+def is_plain(e):
+  return 'bin' not in e
+
+
+def expr_text(e):
+  if 'bin' in e:
+    return '(%s %s %s)' % (expr_text(e['bin'][1]), e['bin'][0], expr_text(e['bin'][2]))
+  return term_text(e)
+
+
+def gen_xrule(rng):
+  base = gen_rule(rng, max_atoms=3)
+  bound = sorted({t['var'] for a in base['body'] for t in a['args'] if 'var' in t})
+  head = [gen_expr(rng, bound) for _ in range(rng.randint(1, 3))]
+  tests = []
+  for _ in range(rng.randint(0, 3)):
+    op = rng.choice(['<', '<=', '>', '>=', '!=', '=='])
+    a, b = gen_expr(rng, bound), gen_expr(rng, bound)
+    if op == '==' and is_plain(a):
+      a = {'bin': ['+', a, {'const': 0}]}     # `x == e` with a plain left side is a unification, not a comparison
+    if 'const' in a and 'const' in b:
+      a = {'bin': ['+', a, {'var': bound[0]}]} if bound else a
+    tests.append([op, a, b])
+  return {'head': head, 'body': base['body'], 'tests': tests}
+
+
+def xrule_text(name, r):
+  body = ['%s(%s)' % (a['pred'], ', '.join(term_text(t) for t in a['args'])) for a in r['body']]
+  # comparisons are spread between the atoms: their position in the body must not matter
+  for i, t in enumerate(r['tests']):
+    body.insert(min(len(body), 1 + i), '%s %s %s' % (expr_text(t[1]), t[0], expr_text(t[2])))
+  return '%s(%s) :- %s;' % (name, ', '.join(expr_text(e) for e in r['head']), ', '.join(body))
+
+
+def strip_parens(e):
+  e = e.strip()
+  while e.startswith('(') and e.endswith(')'):
+    depth = 0
+    for i, ch in enumerate(e):
+      depth += ch == '('
+      depth -= ch == ')'
+      if depth == 0 and i < len(e) - 1:
+        return e
+    e = e[1:-1].strip()
+  return e
+
+
+def parse_sexpr(e, alias):
+  """((a.col0) + (1)) -> {'bin': ['+', [0, 0], 1]}"""
+  e = strip_parens(e)
+  depth = 0
+  for i, ch in enumerate(e):
+    depth += ch == '('
+    depth -= ch == ')'
+    if depth == 0 and ch in '+-*' and i > 0 and e[i - 1] == ' ' and i + 1 < len(e) and e[i + 1] == ' ':
+      return {'bin': [ch, parse_sexpr(e[:i], alias), parse_sexpr(e[i + 1:], alias)]}
+  return parse_expr(e, alias)
+
+
+CMP_RE = re.compile(r'^(.*?) (<=|>=|!=|<|>|=) (.*)$', re.S)
+
+
+def split_cmp(c):
+  c = strip_parens(c)
+  depth = 0
+  for i, ch in enumerate(c):
+    depth += ch == '('
+    depth -= ch == ')'
+    if depth == 0 and ch == ' ':
+      m = re.match(r' (<=|>=|!=|<|>|=) ', c[i:])
+      if m:
+        return c[:i], m.group(1), c[i + len(m.group(0)):]
+  raise ValueError('no comparison in %r' % c)
+
+
+def parse_xselect(sql):
+  m = SEL_RE.match(sql)
+  if not m:
+    raise ValueError('not a plain SELECT')
+  sel_s, from_s, where_s = m.group(1), m.group(2), m.group(3)
+  alias, tables = {}, []
+  for i, item in enumerate(x.strip() for x in from_s.split(',')):
+    mm = re.fullmatch(r'([A-Za-z_0-9]+)(?:\s+AS\s+([A-Za-z_0-9]+))?', item)
+    if not mm:
+      raise ValueError('unexpected FROM item %r' % item)
+    tables.append(mm.group(1))
+    alias[mm.group(2) or mm.group(1)] = i
+  sel = []
+  for i, item in enumerate(re.split(r',\n', sel_s)):
+    mm = re.fullmatch(r'(.*?)\s+AS\s+col(\d+)', item.strip(), re.S)
+    if not mm or int(mm.group(2)) != i:
+      raise ValueError('unexpected SELECT item %r' % item)
+    sel.append(parse_sexpr(mm.group(1), alias))
+  tests, conds = [], []
+  if where_s:
+    for c in re.split(r'\s+AND\n', where_s.strip()):
+      a, op, b = split_cmp(c)
+      pa, pb = parse_sexpr(a, alias), parse_sexpr(b, alias)
+      if op == '=' and isinstance(pa, list) and not isinstance(pb, dict):
+        conds.append([pa, pb])
+      else:
+        tests.append([op, pa, pb])
+  return {'tables': tables, 'tests': tests, 'conds': conds, 'sel': sel}
+
+
+def xjob(j):
+  r, db = j
+  text = '@Engine("sqlite");\n' + xrule_text('Q', r) + '\n'
+  c = R.compile_pred(text, 'Q')
+  out = {'text': text, 'kind': c.kind, 'message': getattr(c, 'message', '')[:300]}
+  if c.kind != 'ok':
+    return out
+  out['sql'] = c.main
+  try:
+    out['select'] = parse_xselect(c.main)
+  except ValueError as e:
+    out['select_error'] = str(e)
+  con = sqlite3.connect(':memory:')
+  try:
+    for t, k in TABLES.items():
+      con.execute('CREATE TABLE %s (%s)' % (t, ', '.join('col%d INTEGER' % i for i in range(k))))
+      con.executemany('INSERT INTO %s VALUES (%s)' % (t, ', '.join('?' * k)), db[t])
+    cur = con.execute(c.main)
+    out['rows'] = [list(r_) for r_ in cur.fetchall()]
+  except sqlite3.Error as e:
+    out['kind'] = 'sql_error'
+    out['message'] = str(e)
+  finally:
+    con.close()
+  return out
+
+
+def run_x(ck, n):
+  cases = [(gen_xrule(ck.rng), gen_db(ck.rng)) for _ in range(n)]
+  reals = core.pmap(xjob, cases)
+  models = core.Driver().ask_many([{'op': 'cqx', 'rule': r, 'db': db} for r, db in cases])
+  for (r, db), real, model in zip(cases, reals, models):
+    rep = {'program': real['text'], 'tables': db, 'rule': r}
+    ck.case(['cqx', r, db], bool(model.get('denote')), ['cqx:tests=%d' % len(r['tests']), 'cqx:atoms=%d' % len(r['body'])])
+    if 'error' in model:
+      ck.disagreement('cqx-compile', rep, real.get('sql', '')[:300], model['error'])
+      continue
+    if real['kind'] != 'ok':
+      ck.violation('c01:cqx:%s' % real['kind'], 'rule with arithmetic / comparisons does not compile/run: %s %s' % (real['kind'], real['message'][:200]), rep)
+      continue
+    ck.corr('cqx-select-structure')
+    if 'select' not in real:
+      ck.disagreement('cqx-select-structure', rep, real.get('select_error'), model['select'])
+    elif real['select'] != model['select']:
+      # an `==` comparison is emitted among the equalities of the atoms (in body order), not with the other
+      # comparisons: with one present the WHERE clause is compared as a set of conjuncts
+      def conj(sel):
+        return sorted(json.dumps(x, sort_keys=True) for x in sel['tests'] + [['=', a, b] for a, b in sel['conds']])
+      same = (any(t[0] == '==' for t in r['tests']) and conj(real['select']) == conj(model['select']) and
+              real['select']['tables'] == model['select']['tables'] and real['select']['sel'] == model['select']['sel'])
+      if not same:
+        ck.disagreement('cqx-select-structure', rep, real['select'], model['select'])
+    ck.corr('cqx-denote-vs-sqlite')
+    got = sorted(map(tuple, real['rows']))
+    exp = sorted(map(tuple, model['denote']))
+    if sorted(map(tuple, model['sql_rows'])) != exp:
+      ck.disagreement('cq-model-internal', rep, model['sql_rows'], model['denote'])
+    if got != exp:
+      ck.violation('c01:cqx:rows', 'rule with arithmetic / comparisons: SQLite returns %s, the rule denotes %s' % (got[:4], exp[:4]), rep)
